@@ -46,7 +46,15 @@ def load_styles(griffe, which=("google", "numpy", "sphinx")):
 
 # ---- abstract signature of a crash of the real code ------------------------------------------------------------------
 def crash_pattern(style: str, excobj: BaseException) -> str:
-    """Line-class pattern at the point of the crash, read from the frames of the real parser."""
+    """Line pattern at the point of the crash, read from the frame of the public parse_<style> function when its locals are the
+    ones of the pinned tree; purely descriptive (part of a violation's signature) - "?" when they are not there."""
+    try:
+        return _crash_pattern(style, excobj)
+    except Exception:  # noqa: BLE001
+        return "?"
+
+
+def _crash_pattern(style: str, excobj: BaseException) -> str:
     frames = [f for f, _ in traceback.walk_tb(excobj.__traceback__)]
     inner = frames[-1].f_code.co_name if frames else "?"
     if inner == "_get_parts":
